@@ -134,6 +134,15 @@ pub fn new_elem(r: &mut Rng, id: String, used: &mut BTreeSet<String>, allow_sub:
     if r.chance(1, 4) {
         m.insert("w".into(), plain_nested(r, 2));
     }
+    if r.chance(1, 14) {
+        // user fields that happen to carry the names the library uses for its own markers
+        match r.below(4) {
+            0 => m.insert("_deleted".into(), Value::from(r.chance(1, 2))),
+            1 => m.insert("_resolved".into(), Value::from(true)),
+            2 => m.insert("_deleted".into(), Value::from("no")),
+            _ => m.insert("_rev".into(), Value::from("1-abc")),
+        };
+    }
     if allow_sub && r.chance(1, 4) {
         let mut subs = vec![];
         for _ in 0..r.below(3) {
@@ -154,6 +163,9 @@ pub fn random_doc(r: &mut Rng) -> Value {
     }
     if r.chance(1, 3) {
         root.insert("p".into(), plain_nested(r, 3));
+    }
+    if r.chance(1, 30) {
+        root.insert("_deleted".into(), Value::from(r.chance(1, 2)));
     }
     for key in ["a", "b"] {
         if r.chance(3, 4) {
